@@ -1,6 +1,7 @@
 package main
 
 import (
+	"runtime"
 	"bufio"
 	"bytes"
 	"encoding/json"
@@ -59,6 +60,7 @@ var (
 	hangTracer *Tracer
 	inFlight   *Event
 	hangLimit  = 150 * time.Second
+	memLimit   = uint64(12) << 30
 )
 
 const hangText = "the call did not return"
@@ -149,6 +151,31 @@ func guard(f func() (any, error)) (o string, r any) {
 			os.Exit(3)
 		})
 		defer timer.Stop()
+		// ... or that allocates without bound: the runtime would kill the process without a trace
+		stop := make(chan struct{})
+		defer close(stop)
+		go func() {
+			tick := time.NewTicker(200 * time.Millisecond)
+			defer tick.Stop()
+			var ms runtime.MemStats
+			for {
+				select {
+				case <-stop:
+					return
+				case <-tick.C:
+					runtime.ReadMemStats(&ms)
+					if ms.HeapAlloc > memLimit {
+						e := *ev
+						e.O, e.R = "hang", []any{}
+						e.Bad = hangText + fmt.Sprintf(": more than %d GB of live heap", memLimit>>30)
+						hangTracer.Emit(e, true)
+						hangTracer.Close()
+						fmt.Fprintln(os.Stderr, "watchdog:", e.Op, "allocates without bound")
+						os.Exit(3)
+					}
+				}
+			}
+		}()
 	}
 	res, err := f()
 	if err != nil {
